@@ -22,7 +22,7 @@ BUDGET = {
 }
 RULE = (
     "cases: topology (1-3 popen members | popen master + 1-2 via subs | popen master + socket member) x worker program "
-    "per member (idle, receive-blocked, busy, sleeping, KeyboardInterrupt-swallowing (optionally ignoring SIGTERM too), extra threads) x worker backend x members exit()ed by the program beforehand x "
+    "per member (idle, receive-blocked, busy, sleeping, KeyboardInterrupt-swallowing (optionally ignoring SIGTERM too), extra threads; optionally an interpreter that outlives its closed connection and ends only by the kill) x worker backend x members exit()ed by the program beforehand x "
     "signals before terminate (SIGSTOP/SIGKILL/SIGINT per process) x optional blocked sender x timeout in {0.1, 1, 5}; "
     "and failing makegateway calls (id taken, unknown via, missing interpreter, unreachable ssh host, death in bootstrap, failure in the chdir/nice/env step, four racing calls for one id).  Children must have exited when terminate returns.  Non-trivial = terminate was called with at least one member under a schedule with "
     "real choices; distinct = distinct event-log digests."
